@@ -116,8 +116,17 @@ func DrawWorld(t *rapid.T, o WorldOpts) *World {
 			wts := map[int]uint64{}
 			tot := uint64(0)
 			active := 0
-			gentle := simkit.Chance(t, "gentle", 3, 4) // most changes move little weight, as a real validator election does
-			if gentle {
+			kind := simkit.Int(t, "changekind", 0, 7) // most changes move little weight, as a real validator election does
+			gentle := kind <= 4
+			if kind == 5 {
+				// same validators, all weights multiplied: votes counted with the weights of one parameter set against
+				// the thresholds of the other are off by the factor
+				f := uint64([]int{2, 3, 10}[simkit.Int(t, "rescale", 0, 2)])
+				for _, v := range w.Vals {
+					wts[v.Index] = prevWeights[v.Index] * f
+					tot += wts[v.Index]
+				}
+			} else if gentle {
 				for k, v := range prevWeights {
 					wts[k] = v
 				}
